@@ -61,6 +61,13 @@ def test_mandatory_option_required(
         )
 
 
+# Symbolic links are never followed. The header does not belong in whatever
+# a FILE.license link points to, which may be shared or outside of the project.
+_SYMLINK_ERROR = _(
+    "Error: '{path}' is a symbolic link; not writing the header through it"
+)
+
+
 def all_paths(
     paths: Collection[Path],
     recursive: bool,
@@ -473,6 +480,11 @@ def annotate(
 
     result = 0
     for path in paths:
+        # An existing FILE.license was selected instead of FILE.
+        if path.suffix == ".license" and path.is_symlink():
+            click.echo(_SYMLINK_ERROR.format(path=path))
+            result += 1
+            continue
         try:
             binary = is_binary(str(path))
         except OSError as error:
@@ -494,6 +506,10 @@ def annotate(
                     ).format(path=path, new_path=new_path)
                 )
             path = Path(new_path)
+            if path.is_symlink():
+                click.echo(_SYMLINK_ERROR.format(path=path))
+                result += 1
+                continue
             created_license_file = not path.exists()
             try:
                 path.touch()
